@@ -281,19 +281,30 @@ def rule_colours(facts, rep):
     rep.check(ok, "colours", a["path"], "Ansi256→reduced-then-same-request", "", loc(a))
     h = facts.body("anstyle_roff", R + "to_hex")
     rep.fn(h["path"])
-    lets = {x["pat"]["name"]: x["init"] for x in hir.stmts_of(h["hir"]) if x.get("k") == "let" and x["pat"].get("k") == "pbind"}
-    shifts = {}
-    for n in hir.walk(lets.get("val", {})):
-        if n.get("k") == "bin" and n["op"] == "Shl":
-            f = hir.peel(n["l"])
-            shifts[f.get("name")] = hir.lit_val(n["r"])
-    plain = [hir.peel(n).get("name") for n in hir.walk(lets.get("val", {})) if n.get("k") == "cast" and hir.peel(n).get("k") == "field"]
+    import poly
+    lets = {}
+    for x in hir.walk(h["hir"]):
+        if x.get("k") == "let" and x["pat"].get("k") == "pbind" and "init" in x and not hir.is_fmt_block(x):
+            lets[(x["pat"]["name"], x["pat"].get("id"))] = x["init"]
+    pname = h["params"][0].get("name")
+
+    def chan(e):
+        e = hir.simp(e)
+        if e.get("k") == "field" and e["name"] in ("0", "1", "2") and hir.is_local(e["e"], pname):
+            return "c" + e["name"]
+        if e.get("k") == "call" and hir.callee(e) in ("anstyle::color::RgbColor::r", "anstyle::color::RgbColor::g", "anstyle::color::RgbColor::b") and hir.is_local(e["args"][0], pname):
+            return "c" + str("rgb".index(hir.callee(e)[-1]))
+        return None
     fm = hir.fmt_blocks(h["hir"])
     okf = False
+    got = {}
     if len(fm) == 1:
         pieces, args = hir.fmt_template(fm[0])
-        okf = pieces[0] == "#" and len(pieces) == 2 and pieces[1][2] == "new_lower_hex" and pieces[1][3].get("width") == 6 and pieces[1][3].get("zero_pad") and hir.local_name(args[0]) == "val"
-    rep.check(shifts == {"0": 16, "1": 8} and "2" in plain and okf, "colours", h["path"], "#rrggbb=(r<<16)+(g<<8)+b", f"{shifts}", loc(h))
+        okf = pieces[0] == "#" and len(pieces) == 2 and pieces[1][2] == "new_lower_hex" and pieces[1][3].get("width") == 6 and pieces[1][3].get("zero_pad")
+        if okf:
+            got = poly.poly(hir.peel(args[pieces[1][1]]), resolve=chan, lets={k: v for k, v in lets.items() if k[0] != "args"})
+    want = {("c0",): 65536, ("c1",): 256, ("c2",): 1}
+    rep.check(okf and got == want, "colours", h["path"], "#rrggbb=(r<<16)+(g<<8)+b", f"value formatted as #{{:06x}}: {poly.show(got)}", loc(h))
 
 
 def rule_taint(facts, rep):
